@@ -229,6 +229,9 @@ def slim(run, check):
     out = {"id": run["id"], "nodes": nodes}
     if check == "C29":
         out["agg"] = run.get("agg", [])
+    if check == "C53":
+        out["analyze"] = [{k: a[k] for k in ("id", "has", "rv", "emitted", "full")} for a in run.get("analyze", [])]
+        out["spill"] = run.get("spill", [])
     if check == "C30":
         out["logical"], out["root"] = run["logical"], run["root"]
     return out
@@ -410,6 +413,21 @@ def mutants(check, runs, rng, per_kind=3):
                             m["stats"][si]["cols"][ci]["max"]["v"]["v"] += 1
                             emit(run, ni, m, "max", "exact-max-off-by-one")
             elif check == "C53":
+                if ni == 0 and run.get("spill"):
+                    r3 = json.loads(json.dumps(run))
+                    r3["spill"][0]["spilled_rows"] += 1
+                    if kinds["spill-metric-off-by-one"] < per_kind:
+                        kinds["spill-metric-off-by-one"] += 1
+                        r3["id"] = f"MUT:spill-metric-off-by-one:{len(out)}:{run['id']}"
+                        out.append((r3, "spilled_rows", 0))
+                if ni == 0 and any(a["full"] and a["has"] for a in run.get("analyze", [])):
+                    r3 = json.loads(json.dumps(run))
+                    a = next(a for a in r3["analyze"] if a["full"] and a["has"])
+                    a["rv"] += 1
+                    if kinds["analyze-rendering-off-by-one"] < per_kind:
+                        kinds["analyze-rendering-off-by-one"] += 1
+                        r3["id"] = f"MUT:analyze-rendering-off-by-one:{len(out)}:{run['id']}"
+                        out.append((r3, "analyze_rows", [n2["id"] for n2 in r3["nodes"]].index(a["id"]) if a["id"] in [n2["id"] for n2 in r3["nodes"]] else 0))
                 if n["full"] and n["metrics"]["has"]:
                     m = json.loads(json.dumps(n))
                     m["metrics"]["rows"] += 1
@@ -418,7 +436,7 @@ def mutants(check, runs, rng, per_kind=3):
                         m = json.loads(json.dumps(n))
                         m["metrics"]["rows"] *= 2
                         emit(run, ni, m, "output_rows", "metric-counted-twice")
-        if len(kinds) and all(v >= per_kind for v in kinds.values()) and len(kinds) >= {"C28": 5, "C30": 3, "C29": 3, "C53": 2}[check]:
+        if len(kinds) and all(v >= per_kind for v in kinds.values()) and len(kinds) >= {"C28": 5, "C30": 3, "C29": 3, "C53": 4}[check]:
             break
     return out, dict(kinds)
 
@@ -475,7 +493,8 @@ def judge(ctx, check, runs, meta, known_key=None, extra_violations=None, chunk=N
     muts, mkinds = mutants(check, logs, rng)
     rej, judged = tlc_validate(ctx, check, logs + [m[0] for m in muts], f"validate-{check}")
     # the corrupted logs must be rejected at the corrupted node with the expected fact
-    missed = [m[0]["id"] for m in muts if not any(b["f"] == m[1] and b["n"] == m[0]["nodes"][m[2]]["id"] for b in rej.get(m[0]["id"], []))]
+    missed = [m[0]["id"] for m in muts if not any(b["f"] == m[1] and (b["n"] == m[0]["nodes"][m[2]]["id"] or m[1] in ("spilled_rows",))
+                                                 for b in rej.get(m[0]["id"], []))]
     if missed:
         raise ToolError(f"self-test: the specification accepted corrupted logs: {missed[:3]}")
     confirmed = unconfirmed = rust_only = 0
